@@ -24,7 +24,9 @@
  *
  * params: tp=tcp|tls|btcp|btls|utlstls|ux|uxf  mode=pair|raw|conn  sa=<script> sb=<script>
  *         bat=<order of r,s,f>  menu=<hex>  fd=0|1 (fault_data)  fc=0|1 (fault_connect)
- *         policy=auto|silent  role=c|s (raw: A is client/server)  wire=3|big|bs
+ *         policy=auto|silent  role=c|s (raw: A is client/server)  wire=3|big|bs|bad0|badmax|badbig (a good frame, then
+ *         a header announcing 0 / 65536 / 2^20 bytes, then a good frame; once the invalid header is complete the raw peer
+ *         stays connected: the framing-level protocol error is the only terminal condition)
  *         cut=<lo>:<hi> | cuts=a;b;c   rawread=<n msgs/bytes the raw peer reads first>
  *         rawwait=0|1 (raw peer dies only once unread bytes of A are queued)
  *         rawdrain=0|1 (raw peer reads whatever has arrived just before it dies)   certs=<dir>
@@ -49,8 +51,9 @@
 
 enum { END_ALIVE = 0, END_ORDERLY, END_RESET, END_DIRTY };
 enum { K_OK = 0, K_AGAIN, K_EOF, K_ERR };
-enum { C_SEND = 0, C_RECV, C_FIN };
-static const char *CALLN[] = { "send", "receive", "finish" };
+enum { C_SEND = 0, C_RECV, C_FIN, C_SETB };
+/* "xcm_" + name; set_blocking(true) has to finish outstanding work first, so it is judged like finish */
+static const char *CALLN[] = { "send", "receive", "finish", "set_blocking" };
 
 /* what one side has put on the wire towards the other */
 struct wire {
@@ -81,6 +84,7 @@ struct ep {
     int peer_end;              /* END_* of the other side as this side's kernel will see it */
     int peer_notify;           /* TLS: the peer wrote a close_notify (xcm_close of an XCM peer) */
     int peer_raw;
+    int proto_err;             /* the raw peer has put a complete invalid frame header on the wire (and lives on) */
     int dirty_close;
     int closed, done, in_close, acceptor;
     /* observations */
@@ -346,7 +350,7 @@ static void after_call(struct ep *x, int call, int kind, int err)
                     (kind == K_OK || kind == K_EOF || (kind == K_ERR && err == EPIPE)))
                     ok = 1;
             } else
-                ok = call == C_FIN ? 1 : (kind == K_ERR || (call == C_RECV && kind == K_EOF));
+                ok = call >= C_FIN ? 1 : (kind == K_ERR || (call == C_RECV && kind == K_EOF));
         } else {
             if (call == C_SEND)
                 ok = kind == K_ERR && err == EPIPE;
@@ -413,6 +417,19 @@ static void after_call(struct ep *x, int call, int kind, int err)
     /* XCM's own tcp.connect_timeout: virtual time only advances while an establishment is being withheld */
     if (kind == K_ERR && err == ETIMEDOUT && env_now_ns() - g_t0 >= 3000000000LL)
         return;
+    if (x->proto_err && x->peer_end == END_ALIVE) {
+        /* only the read path parses headers: the discovering call is xcm_receive, and it says EPROTO */
+        if (!(kind == K_ERR && err == EPROTO)) {
+            snprintf(sig, sizeof sig, "C06/protocol-error-misreported/%s:%s/tp=%s", CALLN[call], rescls(kind, err), g_tp);
+            viol(sig, "%s: the peer sent an invalid frame header after %d complete message(s) and stays connected; xcm_%s reported %s",
+                 x->name, x->in->n_complete, CALLN[call], res);
+        } else if (!drained(x)) {
+            snprintf(sig, sizeof sig, "C06/protocol-error-before-queued-message/tp=%s", g_tp);
+            viol(sig, "%s: %d complete message(s) precede the invalid header on the wire; EPROTO was reported after only %d",
+                 x->name, x->in->n_complete, x->n_rcv);
+        }
+        return;
+    }
     switch (x->peer_end) {
     case END_ALIVE:
         /* the other endpoint has already met a terminal condition: what the library did to its descriptor
@@ -556,6 +573,17 @@ static int call_finish(struct ep *x, int *err_out)
     return kind;
 }
 
+static void call_set_blocking(struct ep *x)
+{
+    mc_sched_point("set_blocking");
+    int rc = API("xcm_set_blocking", 0, xcm_set_blocking(x->s, true));
+    int err = rc < 0 ? errno : 0;
+    mc_observe("%s set_blocking(true) -> %d %s", x->name, rc, rc < 0 ? errname(err) : "");
+    after_call(x, C_SETB, rc == 0 ? K_OK : (err == EAGAIN ? K_AGAIN : K_ERR), err);
+    if (rc == 0)
+        API("xcm_set_blocking", 0, xcm_set_blocking(x->s, false));
+}
+
 static void ep_close(struct ep *x)
 {
     struct ep *p = peer_of(x);
@@ -602,6 +630,10 @@ static void battery(struct ep *x)
                 call_finish(x, &err);
             mc_set_progress(1);
         }
+    /* finish once more, back to back with the last call, and the call that has to finish outstanding work */
+    call_finish(x, &err);
+    call_set_blocking(x);
+    mc_set_progress(1);
 }
 
 static void run_script(struct ep *x)
@@ -789,6 +821,8 @@ static void task_acceptor(void *arg)
 static unsigned char *g_out;           /* planned output stream of the raw peer */
 static int g_outlen, g_out_sent;
 static int g_frame_end[MAXM], g_nframes;
+static int g_bad_hdr_end;              /* plain-wire offset behind the invalid header (wire=bad*), 0 if none */
+static int g_bad_hdr_out;              /* the same as an offset of the raw peer's output stream (TLS: record end) */
 
 static int raw_listener(int port)
 {
@@ -822,6 +856,25 @@ static int build_wire(unsigned char *dst, int *frame_end, int *nframes, int *ids
         for (int j = 0; j < len; j++)
             dst[j] = sbyte(1, j);
         return len;
+    }
+    if (!strncmp(g_wire, "bad", 3)) {
+        /* one good frame, then a header no XCM peer can send (length 0, or above 65535), then a good frame again */
+        uint32_t be = htonl(2);
+        memcpy(dst, &be, 4);
+        pay_fill(dst + 4, 200, 2);
+        n = 6;
+        frame_end[0] = n;
+        ids[0] = 200;
+        lens[0] = 2;
+        *nframes = 1;
+        be = htonl(!strcmp(g_wire, "bad0") ? 0u : !strcmp(g_wire, "badmax") ? 65536u : (1u << 20));
+        memcpy(dst + n, &be, 4);
+        n += 4;
+        g_bad_hdr_end = n;
+        be = htonl(1);
+        memcpy(dst + n, &be, 4);
+        dst[n + 4] = 0x5a;
+        return n + 5;
     }
     int cnt = !strcmp(g_wire, "big") ? 1 : 3;
     for (int i = 0; i < cnt; i++) {
@@ -882,6 +935,26 @@ static void raw_die(struct ep *a)
     close(g_raw_fd);
     g_raw_fd = -1;
     signal_end_to(a);
+}
+
+/* the raw peer has written a complete invalid frame header: it stays connected (the protocol error is the only
+   terminal condition there is), swallows whatever the XCM side sends and leaves when the XCM side has closed */
+static void raw_stay(struct ep *a)
+{
+    static unsigned char sink[4096];
+    raw_account(a);
+    a->proto_err = 1;
+    mc_observe("RAW peer has sent an invalid frame header behind %d complete message(s) (%d bytes written) and stays", a->in->n_complete,
+               g_raw_written);
+    signal_end_to(a);
+    for (;;) {
+        mc_wait_readable(g_raw_fd, "raw-stay");
+        ssize_t n = recv(g_raw_fd, sink, sizeof sink, 0);
+        if (n == 0 || (n < 0 && errno != EAGAIN))
+            break;
+    }
+    close(g_raw_fd);
+    g_raw_fd = -1;
 }
 
 /* write planned bytes up to the cut; returns 1 when the cut (or the end of the plan) is reached */
@@ -985,8 +1058,12 @@ static void task_raw_plain(void *arg)
         }
     }
     mc_sched_point("raw-write");
+    g_bad_hdr_out = g_bad_hdr_end;
     raw_pump(1);
-    raw_die(a);
+    if (g_bad_hdr_out && g_raw_written >= g_bad_hdr_out)
+        raw_stay(a);
+    else
+        raw_die(a);
     return;
 gone:
     raw_account(a);
@@ -1089,6 +1166,12 @@ static void task_raw_tls(void *arg)
                         W[1].len[i] = lens[i];
                         g_nframes = i + 1;
                     }
+                if (!g_bs && start < applen) {
+                    /* wire=bad*: the invalid header and what follows it, in one more record */
+                    SSL_write(ssl, app + start, applen - start);
+                    collect(wb);
+                    g_bad_hdr_out = g_outlen;
+                }
                 app_done = 1;
                 g_raw_total = g_outlen;
             }
@@ -1107,7 +1190,9 @@ static void task_raw_tls(void *arg)
             raw_account(a);
             close(g_raw_fd);
             g_raw_fd = -1;
-        } else
+        } else if (g_bad_hdr_out && g_out_sent >= g_bad_hdr_out)
+            raw_stay(a);
+        else
             raw_die(a);
     }
     SSL_free(ssl);
